@@ -139,6 +139,7 @@ func (e *Enc) instr(fr *Frame, b *ssa.BasicBlock, ins ssa.Instruction, st *State
 	case *ssa.Panic:
 		ex := &Exit{kind: "panic", cond: reach, st: st.clone(), pos: pos, payload: e.val(fr, x.X), hasPayload: true, path: fr.path}
 		fr.exits = append(fr.exits, ex)
+		e.panicSiteClauses(fr, x, st, reach, pos)
 	case *ssa.If, *ssa.Jump:
 		return
 	case *ssa.SliceToArrayPointer, *ssa.MultiConvert:
